@@ -507,6 +507,9 @@ class Interp:
         if isinstance(a, SObj) or isinstance(b, SObj):
             return self.obj_eq(a, b)
         from .seqs import SSeq
+        from .pipes import SPipe, pipe_eq
+        if isinstance(a, SPipe) or isinstance(b, SPipe):
+            return pipe_eq(self, a, b)
         if isinstance(a, SSeq) or isinstance(b, SSeq):
             raise Unsupported('== on symbolic-length sequence')
         if isinstance(a, sym.SOpaque) or isinstance(b, sym.SOpaque):
@@ -1191,7 +1194,9 @@ class Interp:
         return list(self.comprehension(node, env))
 
     def e_GeneratorExp(self, node, env):
-        return LazyGen(self, node, env)
+        # python evaluates the outermost iterable when the generator is created
+        first = self.eval(node.generators[0].iter, env)
+        return LazyGen(self, node, env, first)
 
     def e_SetComp(self, node, env):
         vals = list(self.comprehension(node, env))
@@ -1207,9 +1212,10 @@ class Interp:
             out[k] = v
         return out
 
-    def comprehension(self, node, env, dict_mode=False):
+    def comprehension(self, node, env, dict_mode=False, first=None):
         """Generator over the elements of a comprehension (concrete iteration)."""
         from .seqs import SSeq
+        have_first = first is not None
 
         def rec(gens, cenv):
             if not gens:
@@ -1219,7 +1225,10 @@ class Interp:
                     yield self.eval(node.elt, cenv)
                 return
             g = gens[0]
-            it = self.eval(g.iter, cenv)
+            if have_first and g is node.generators[0]:
+                it = first
+            else:
+                it = self.eval(g.iter, cenv)
             if isinstance(it, SSeq):
                 raise Unsupported('nested comprehension over symbolic-length sequence', node)
             for item in self.iterate(it, node):
@@ -1233,8 +1242,15 @@ class Interp:
                     yield from rec(gens[1:], cenv)
 
         from .seqs import comprehension_over_sseq
+        from .pipes import SPipe, comprehension_over_pipe
         if len(node.generators) == 1 and not dict_mode:
-            first = self.eval(node.generators[0].iter, env)
+            if not have_first:
+                first = self.eval(node.generators[0].iter, env)
+            if isinstance(first, LazyGen):
+                inner = first.iterator()
+                first = inner if isinstance(inner, (SPipe, SSeq)) else list(inner)
+            if isinstance(first, SPipe):
+                return comprehension_over_pipe(self, node, env, first)
             if isinstance(first, SSeq):
                 return comprehension_over_sseq(self, node, env, first)
             cenv = Env({}, env, env.module)
@@ -1649,6 +1665,13 @@ class Interp:
             handled, result = self.call_hook(self, func, args, kwargs, node)
             if handled:
                 return result
+        if func.name == 'flatten' and args:
+            from .pipes import SNested, flatten_abstract
+            d = args[0]
+            if isinstance(d, (tuple, list)) and len(d) == 1 and isinstance(d[0], SNested):
+                d = d[0]
+            if isinstance(d, SNested):
+                return flatten_abstract(self, [d] + list(args[1:]), kwargs, node)
         fnode = func.node
         defenv = func.env if func.env is not None else Env({}, None, func.module)
         env = Env({}, func.env, func.module)
@@ -2061,19 +2084,23 @@ class SymSet:
 class LazyGen:
     """Generator expression: evaluated when consumed (once)."""
 
-    def __init__(self, interp, node, env):
+    def __init__(self, interp, node, env, first=None):
         self.interp = interp
         self.node = node
         self.env = env
+        self.first = first
         self._items = None
 
     def iterator(self):
-        return self.interp.comprehension(self.node, self.env)
+        return self.interp.comprehension(self.node, self.env, first=self.first)
 
     def materialize(self):
         if self._items is None:
             r = self.iterator()
             from .seqs import SSeq
+            from .pipes import SPipe
+            if isinstance(r, SPipe):
+                raise Unsupported('concrete iteration over an unbounded range pipeline', self.node)
             if isinstance(r, SSeq):
                 self._items = r
                 return r.concretize_iter(self.interp, self.node)
